@@ -11,6 +11,22 @@ VL = (' Value-level rules use a bit-precise relational abstract domain (one cano
       'compared as canonical forms; nothing is executed or searched; leaving the modelled fragment is ANALYSIS-ERROR, '
       'never a verdict.')
 
+FUNCTION_RULES = {
+    'C03': 'can_dynarec accepts ROM only; cache key injective (two-copy comparison)',
+    'C04': 'engine selection; loop-exit predicates of both engines equal as Boolean functions',
+    'C07': 'vector and cleared IF bit as functions of the pending set sampled between the pushes',
+    'C09': 'inherits the dispatch paths of C07',
+    'C10': 'I/O read-back masks; bank index injectivity and stride through affine forms',
+    'C12': 'register -> bank functions of MBC1/MBC3; reduction to the cartridge size is the identity on existing banks',
+    'C13': 'TAC write (mask table, enable, glitch) and catch-up loop step as functions of divider / mask / TAC',
+    'C14': 'STAT register composition',
+    'C17': 'interrupt latch condition as a function of the input lines before / after',
+    'C19': 'header checksum formula over the 25 covered bytes',
+}
+THOROUGH = (' Thorough tier: facts regenerated from scratch, then the checker is validated on scratch copies of the current '
+            'tree: every seeded change / reverted fix listed for this property must be reported (exit 1, VIOLATION of the named '
+            'rule) and every behaviour-preserving rewrite must pass, otherwise the verdict is withheld (ANALYSIS-ERROR).')
+
 CHECKS = {
  'C04': dict(
     technique='cross-configuration comparison of step tails, engine selection by address, loop-exit relation of both engines',
@@ -228,7 +244,12 @@ def main():
     for pid in props:
         if pid not in CHECKS:
             continue
-        c = CHECKS[pid]
+        c = dict(CHECKS[pid])
+        if pid in FUNCTION_RULES:
+            c['technique'] += '; function-level clauses decided bit-precisely (canonical ROBDD vectors): ' + FUNCTION_RULES[pid]
+            if VL not in c['note']:
+                c['note'] += VL
+        c['note'] += THOROUGH
         checks.append({
             'property_id': pid,
             'quick_cmd': './check %s' % pid,
